@@ -111,3 +111,28 @@ CONFIGS["C31"] = dict(
                  "ids are supplied by the caller (the stores do not generate them for written users)"],
     required_probes=["reopens", "operations"],
 )
+
+CONFIGS["C25"] = dict(
+    prop="C25", engine="passwd-hist", pkg="internal/server/auth", harness="C25",
+    level="exploration",
+    level_text="the history/fault part of the statement: seeded histories of logins (user spelling x candidate: right, wrong, "
+               "empty, case variant, right+space) against users stored as bcrypt, legacy SHA-256 and {plaintext}, interleaved "
+               "with plaintext-setting toggles, permission changes, flush, close+reopen, crash (reopen without flush; only "
+               "durable state survives) and injected failures of the next WriteUser / Flush through the AuthService seam, on "
+               "the real file-backed and database-backed stores; every ValidatePassword result is compared with the model, so "
+               "that the bcrypt migration (done, refused, or lost in a crash) never changes which passwords are accepted. The "
+               "pure for-every-string part of C25 is input enumeration and is not claimed beyond the candidates used.",
+    technique="deterministic simulation: seeded histories with injected store write/flush failures and crash-restart, reference model",
+    rewrite=dict(dirs=ALL_INTERNAL, consts=BCRYPT_KNOB),
+    extra_files=[CACHES_EXPORT],
+    race="none",
+    quick=dict(runs=1200, per_proc=80, budget_s=240),
+    thorough=dict(runs=60000, per_proc=800, budget_s=1500),
+    det_seeds=24,
+    rule="histories of 8-27 operations over 4 users (bcrypt / legacy / plaintext / legacy without logon) + an unknown user, "
+         "store knob file/database, plaintext knob; non-trivial = >=3 logins; distinct = distinct (knobs, history) hash",
+    real=["auth.ValidatePassword, HashPassword, setPermission", "file-backed and database-backed user stores", "caches.AuthCache"],
+    stubbed=["bcrypt cost 12 -> 4 (pure cost knob, rule R6)", "time: synctest fake clock"],
+    assumptions=["write/flush failures are injected at the AuthService interface, not inside SQLite"],
+    required_probes=["migrations_done", "crash", "reopen", "write-error", "flush-error"],
+)
